@@ -61,8 +61,7 @@ Theorem C11_intersection : forall s a b, wf a -> wf b ->
   op_inter (VA (norm s a)) (VA (norm s b)) = Ok (meet_val s a b)
   /\ (forall c row, inside (meet_rect a b) c row <-> inside a c row /\ inside b c row)
   /\ (empty_rect (meet_rect a b) = true <-> ~ exists c row, inside a c row /\ inside b c row).
-Proof. intros s a b Ha Hb. exact (conj (inter_value s a b Ha Hb)
-         (conj (meet_cells a b) (meet_empty a b Ha Hb))). Qed.
+Proof. exact intersection_full. Qed.
 Print Assumptions C11_intersection.
 (* union = the least rectangle containing both *)
 Theorem C11_union : forall s a b, wf a -> wf b ->
@@ -71,8 +70,7 @@ Theorem C11_union : forall s a b, wf a -> wf b ->
   /\ (forall c row, inside a c row \/ inside b c row -> inside (join_rect a b) c row)
   /\ (forall u, (forall c row, inside a c row \/ inside b c row -> inside u c row) ->
                 forall c row, inside (join_rect a b) c row -> inside u c row).
-Proof. intros s a b Ha Hb. exact (conj (union_value s a b Ha Hb) (conj (join_wf a b Ha Hb)
-         (conj (join_upper a b) (fun u => join_least a b u Ha Hb)))). Qed.
+Proof. exact union_full. Qed.
 Print Assumptions C11_union.
 (* commutativity: every pair of addresses (any sheets, bounded or not) *)
 Theorem C11_inter_comm : forall x y, op_inter (VA x) (VA y) = op_inter (VA y) (VA x).
@@ -103,8 +101,7 @@ Print Assumptions C11_inter_assoc_partial.
 (* addresses on two different sheets: #VALUE! *)
 Theorem C11_different_sheets : forall x y, a_sheet x <> [] -> a_sheet y <> [] -> a_sheet x <> a_sheet y ->
   op_inter (VA x) (VA y) = Ok (VE VALUE_ERROR) /\ op_union (VA x) (VA y) = Ok (VE VALUE_ERROR).
-Proof. intros x y Hx Hy Hn. exact (conj (different_sheets Z.max Z.min x y Hx Hy Hn)
-                                          (different_sheets Z.min Z.max x y Hx Hy Hn)). Qed.
+Proof. exact different_sheets_both. Qed.
 Print Assumptions C11_different_sheets.
 
 (* (e) offsets stay on the sheet, compose additively, wrap at the sheet size *)
